@@ -582,7 +582,9 @@ func CheckC18(p *Pkg, e *Env, r *res.Result) {
 						if len(body) > 1 && rapid.Bool().Draw(t, "truncate") {
 							body = body[:rapid.IntRange(1, len(body)-1).Draw(t, "cut")]
 							if _, err := refmodel.DecodeJSON(body); err == nil {
-								body = append(body, '}', '{')
+								// still a JSON value (a shorter number): a streaming decoder would
+								// stop after it, so put the garbage first
+								body = append([]byte("}{"), body...)
 							}
 						} else {
 							body = []byte(rapid.SampledFrom([]string{"", "{", "[1,", "{\"a\":}", "nul", "<xml/>", "a=b&c=d", "\x00\x01"}).Draw(t, "garbage"))
